@@ -50,6 +50,7 @@ class Recorder:
         self.model_reqs = 0       # depth of protocol-issued sync requests (INSPECT)
         self.oid(root)
         self.muted = 0
+        self.seq_of = {}
 
     # -- identities
     def oid(self, x):
@@ -844,6 +845,10 @@ def install():
             from rpyc.core import consts
             if msg == consts.MSG_REQUEST:
                 r.event("req %d %d %s" % (seq, args[0], r.val(args[1])))
+                cb = self._request_callbacks.get(seq)
+                if cb is not None:
+                    r.keep.append(cb)
+                    r.seq_of[id(cb)] = seq      # the waiter of this request (it may be dropped from the table before it expires)
             elif msg == consts.MSG_REPLY:
                 r.event("reply %s %s" % (r.val(seq), r.val(args)))
             else:
@@ -920,9 +925,13 @@ def install():
                 depth, tb = depth + 1, tb.tb_next
             # raised by wait() itself (this wait's deadline passed), not an exception that came out of a nested serve()
             if r is not None and depth <= 2:
-                for k, v in list(self._conn._request_callbacks.items()):
-                    if v is self:
-                        r.event("expired %d" % k)
+                k = r.seq_of.get(id(self))
+                if k is None:
+                    for kk, v in list(self._conn._request_callbacks.items()):
+                        if v is self:
+                            k = kk
+                if k is not None:
+                    r.event("expired %d" % k)
             raise
     async_.AsyncResult.wait = a_wait
 
